@@ -263,7 +263,7 @@ func c06raceBody() {
 	vrand.IntRange = 6
 	sched.OnReset(func() { vrand.IntRange = 1 })
 	policy := []service.LoadBalancePolicy{service.LoadBalancePolicy_ROUND_ROBIN, service.LoadBalancePolicy_LEAST_CONNECTION}[sched.Choose(sched.ClsInput, 2, "policy")]
-	change := []string{"remove a", "unhealthy a", "replace {b,c}", "remove a+b", "replace {c,a,b}"}[sched.Choose(sched.ClsInput, 5, "change")]
+	change := []string{"remove a", "unhealthy a", "replace {b,c}", "remove a+b", "replace {c,a,b}", "policy update"}[sched.Choose(sched.ClsInput, 6, "change")]
 	w := c06setup(policy, []string{"a", "b", "c"})
 	before := w.usable()
 	client, proxySide := vnet.Pipe()
@@ -280,6 +280,14 @@ func c06raceBody() {
 		case "replace {b,c}":
 			w.p.OnSvcAllHostReplace([]*host.Host{host.NewWithType(c06addrs["b"], host.TypeMain), host.NewWithType(c06addrs["c"], host.TypeBackup)})
 			delete(w.members, "a")
+		case "policy update": // the balancing policy (and with it the configuration pointer) is swapped at run time
+			np := service.LoadBalancePolicy_LEAST_CONNECTION
+			if policy == np {
+				np = service.LoadBalancePolicy_RANDOM
+			}
+			if err := w.p.OnSvcConfigUpdate(vfTCPConfig(np, 0)); err != nil {
+				sched.Fail("config-update-rejected / tcp", err.Error())
+			}
 		case "replace {c,a,b}": // the backup host is listed first
 			w.p.OnSvcAllHostReplace([]*host.Host{host.NewWithType(c06addrs["c"], host.TypeBackup), host.NewWithType(c06addrs["a"], host.TypeMain), host.NewWithType(c06addrs["b"], host.TypeMain)})
 		case "remove a+b":
